@@ -35,7 +35,7 @@ assert len(ALPHABET) == 23
 RANDOM_EXTRA = ['\n', '\t', 'é', '٣', ':', '!', '@', '%', '|', ',', '0', 'l', 'x', '_', '²', ' ']
 HANG_S = 5.0
 NUM_FRAGS = ['$', '$$', '$$$', '@', '@-', '@^', '@^^', '^', '^^', '-', '3', '12', '0', '*', '*2', '*3', '*0', 'a', 'li', '.c', '#i', '>', '+',
-             '(', ')', '{', '}', '[t=', ']', '$#', '${1}', '${', 'lorem', 'lorem5', '-1', '-', '/', 'ul>li', '.i$@^', '{$@^^^}', '$@^^-2']
+             '(', ')', '{', '}', '[t=', ']', '$#', '${1}', '${', '-1', '-', '/', 'ul>li', '.i$@^', '{$@^^^}', '$@^^-2']
 
 SYNTAXES = ['html', 'xml', 'xsl', 'jsx', 'js', 'pug', 'slim', 'haml', 'vue', 'svelte', 'xhtml']
 TEXTS = [None, None, None, 'hello', 'two\nlines', '  ', '', ['x'], ['x', 'y', 'z'], ['', ' ', 'q'], [], 'a$#b',
